@@ -57,7 +57,11 @@ class Prover:
     def run_contract(self, c, label=None):
         it = self.it
         label = label or c.name
-        fv = it.get_function(c.relpath, c.qualname) if c.relpath else None
+        try:
+            fv = it.get_function(c.relpath, c.qualname) if c.relpath else None
+        except Unsupported as u:
+            self.report.add_obligation(f'{self.prop}/{label}/vcgen', c.qualname, 'undecided', 'pyvc', 0.0, 'UNSUPPORTED ' + str(u))
+            return
         if fv is not None:
             qn = c.relpath + '::' + c.qualname
             info = it.function_info(fv)
